@@ -135,9 +135,11 @@ func init() {
 				}
 				return invDone, nil
 			}
-			r.qFeas++
-			if r.checkWith(cond) == Unsat {
-				r.abort(OInfeasible, "")
+			if len(r.log) >= len(r.prefix) {
+				r.qFeas++
+				if r.checkWith(cond) == Unsat {
+					r.abort(OInfeasible, "")
+				}
 			}
 			r.assume(cond)
 			return invDone, nil
@@ -173,6 +175,9 @@ func init() {
 		},
 		"vB2I": func(c *intrCtx) (invResult, Value) {
 			return invDone, c.r.tt.Ite(c.args[0].(*Term), c.r.tt.Int(64, 1), c.r.tt.Int(64, 0))
+		},
+		"vB2U8": func(c *intrCtx) (invResult, Value) {
+			return invDone, c.r.tt.Ite(c.args[0].(*Term), c.r.tt.Int(8, 1), c.r.tt.Int(8, 0))
 		},
 		"vUF1": func(c *intrCtx) (invResult, Value) {
 			u := c.r.tt.UF(cstr(c, 0), BV(64), c.args[1].(*Term))
